@@ -63,8 +63,13 @@ def main():
             return
         env = {}
         ctx = B.Ctx(c)
+        from replay.stubs import World, ReplayDiverged, ReplayDone
+
+        ctx.world = World(ctx, c, wit)
         for pname, pt in params.items():
             env[pname] = B.build(ctx, wit.get(pname), pt)
+        if getattr(c, "ghost", None):
+            env["G"] = ctx.world.G
         setup = getattr(c, "native_setup", None)
         if setup is not None:
             env = setup(env, ctx) or env
@@ -95,7 +100,7 @@ def main():
             else:
                 import inspect
 
-                names = list(inspect.signature(fn).parameters)
+                names = [n for n in inspect.signature(fn).parameters]
                 args = []
                 kwargs = {}
                 for n in names:
@@ -107,6 +112,16 @@ def main():
                     if n in env:
                         kwargs[n] = env[n]
                 result = fn(*args, **kwargs)
+        except ReplayDone:
+            out["reproduced"] = True
+            out["violated"] = list(ctx.world.violations)
+            out["note"] = "run stopped at the failing protocol precondition (the counter-model ends there)"
+            print("REPLAY-RESULT " + json.dumps(out, default=str))
+            return
+        except ReplayDiverged as e:
+            out["error"] = "native run diverged from the counter-model: %s" % e
+            print("REPLAY-RESULT " + json.dumps(out, default=str))
+            return
         except S.AssumptionViolated:
             out["error"] = "witness violates a harness assumption natively"
             print("REPLAY-RESULT " + json.dumps(out, default=str))
@@ -125,9 +140,9 @@ def main():
                             spec = v
                     except AttributeError:
                         pass
-            if S.CHECK_FAILURES:
+            if S.CHECK_FAILURES or ctx.world.violations:
                 out["reproduced"] = True
-                out["violated"] = ["check[%s]" % nm for nm in S.CHECK_FAILURES] + ["no-raise[%s]" % cls]
+                out["violated"] = ["check[%s]" % nm for nm in S.CHECK_FAILURES] + list(ctx.world.violations) + ["raised[%s]" % cls]
             elif spec is None:
                 out["reproduced"] = True
                 out["violated"] = ["no-raise[%s]" % cls]
@@ -151,6 +166,7 @@ def main():
                     bad.append("inv" + b)
             for nm in S.CHECK_FAILURES:
                 bad.append("check[%s]" % nm)
+            bad.extend(ctx.world.violations)
             out["violated"] = bad
             # the recorded obligation names one clause; any violated clause of the same contract counts
             out["reproduced"] = bool(bad)
